@@ -191,7 +191,7 @@ def main():
         "checks": checks,
         "not_applicable": na,
         "notes": "All checks: ./check <ID> [--tier quick|thorough] [--replay file]; VERIF_SEED rotates enumeration "
-                 "order and sets PYTHONHASHSEED only - every case always runs. Known findings: known_findings.json.",
+                 "order and sets PYTHONHASHSEED only - every case always runs (C14 orders its work units by cost instead). VERIF_TIME_BUDGET=<seconds> caps one invocation (default: none for quick, 9000 for thorough); a capped run reports exhaustive=false and the number of work units not explored in its evidence file. Known findings: known_findings.json. Seeded breaking changes and what catches them: seeded/README.md.",
     }
     with open(os.path.join(HERE, "MANIFEST.json"), "w") as f:
         json.dump(manifest, f, indent=1)
